@@ -1139,13 +1139,13 @@ void consumerAnalyser(ConsumerEnv &e, const std::vector<ConsumerPair> &pairs, bo
                 if (!agrees(fCode, fAst)) {
                     e.fails.add("C08.consumer-scale|generator|" + cls, what + " AST factor " + fmtDouble(fAst) + " code: " + stmt);
                 }
-                bool unitsReliable = !(A.traits.importExpPath || B.traits.importExpPath || A.traits.importRevisit || B.traits.importRevisit); // known compatible() defects make f = 0 there
+                bool unitsReliable = !(A.traits.importRevisit || B.traits.importRevisit); // the known isDefined() defect makes f = 0 there
                 if (unitsReliable) {
                     if (!agrees(fAst, fUnits)) {
                         e.fails.add("C08.consumer-scale|" + site + "|" + cls, what + " AST factor " + fmtDouble(fAst));
                     }
                 } else {
-                    e.c.count("excluded:analyser-vs-Units|import-child-exponent");
+                    e.c.count("excluded:analyser-vs-Units|import-revisited-after-chain");
                 }
                 if (regime) {
                     e.c.count("consumer_analyser_factor_judged");
